@@ -2,31 +2,49 @@ package main
 
 import (
 	"fmt"
+	"math/rand"
 	"os"
-	"strings"
 
 	"github.com/tsawler/tabula"
+
+	"verifharness/gen/pdfw"
 )
 
 func main() {
-	p, tok := os.Args[1], os.Args[2]
-	n, _ := tabula.Open(p).PageCount()
-	for i := 1; i <= n; i++ {
-		fr, _, _ := tabula.Open(p).Pages(i).Fragments()
-		hit := false
-		for _, f := range fr {
-			if strings.Contains(f.Text, tok[len(tok)-5:]) || strings.Contains(f.Text, tok) {
-				hit = true
+	for i := 0; i < 8; i++ {
+		rd := rand.New(rand.NewSource(int64(100 + i)))
+		g := pdfw.GenDoc(rd, pdfw.DocOpts{MinPages: 1, MaxPages: 3, MaxLines: 6, MaxFonts: 3, TreeDepth: 1, Inherit: "leaf", NoEmptyPages: true,
+			FontKinds: []string{"tt-winansi-tounicode", "t1-macroman", "t1-std14-tounicode"}, ExactKinds: true})
+		lay := pdfw.BaselineLayout()
+		b := pdfw.Build(rd.Int63(), lay, []*pdfw.Doc{g.Doc})
+		victim := fmt.Sprintf("font:%d", g.Doc.Fonts[i%3].ID)
+		num := b.NumOf[victim]
+		data := append([]byte{}, b.Bytes...)
+		want := fmt.Sprintf("%d 0 R", num)
+		n := 0
+		for _, f := range b.Fields {
+			if f.Kind == "ref" && string(data[f.Start:f.End]) == want {
+				for k := f.Start; k < f.End && data[k] >= '0' && data[k] <= '9'; k++ {
+					data[k] = '9'
+				}
+				n++
 			}
 		}
-		if !hit {
-			continue
+		os.WriteFile("/dev/shm/dmg.pdf", data, 0o644)
+		seen := map[string]int{}
+		for k := 0; k < 40; k++ {
+			t, _, _ := tabula.Open("/dev/shm/dmg.pdf").Text()
+			seen[fmt.Sprintf("%x", fnvh(t))]++
 		}
-		fmt.Println("page", i)
-		for _, f := range fr {
-			fmt.Printf("   (%.1f,%.1f) w=%.1f size=%.1f font=%s %q\n", f.X, f.Y, f.Width, f.FontSize, f.FontName, f.Text)
-		}
-		t, _, _ := tabula.Open(p).Pages(i).Text()
-		fmt.Printf("%q\n", t)
+		fmt.Println(i, "refs", n, "fonts", len(g.Doc.Fonts), "distinct results", seen)
 	}
+}
+
+func fnvh(s string) uint32 {
+	h := uint32(2166136261)
+	for i := 0; i < len(s); i++ {
+		h ^= uint32(s[i])
+		h *= 16777619
+	}
+	return h
 }
